@@ -23,7 +23,7 @@ def has_call(e):
     line with a call in it ends in a newline, whatever the call is"""
     if not isinstance(e, dict):
         return False
-    if e.get("k") in ("ts", "cc", "turns", "tsv", "cntv"):
+    if e.get("k") in ("ts", "cc", "turns", "tsv", "cntv", "pcall"):
         return True
     return any(has_call(v) for v in e.values() if isinstance(v, dict))
 
@@ -64,6 +64,7 @@ class Gen:
         self.label_bodies = {}
         self.kparams = {}         # knot / tunnel / thread name -> parameter names
         self.kdivparams = {}      # parameter that takes a divert target -> the knots it may be given
+        self.pures = []           # pure functions (body: `~ return expr`) that may be called inside any expression
         self.consts = {}          # CONST name -> integer value
         self.dvars = {}           # global that holds a divert target -> the knots it may hold (all of one kind)
 
@@ -136,6 +137,15 @@ class Gen:
             op = r.choice(["&&", "||"])
             return {"k": "b", "op": op, "a": a, "b": b}, "(%s %s %s)" % (ta, op, tb)
         k = r.random()
+        if self.pures and getattr(self, "pcall_ok", False) and depth < 2 and self.p(0.12):
+            # a call of a pure function inside the expression
+            f = r.choice(self.pures)
+            args, texts = [], []
+            for _ in f["params"]:
+                a, ta = self.expr(depth + 1)
+                args.append(a)
+                texts.append(ta)
+            return {"k": "pcall", "f": f["name"], "args": args}, "%s(%s)" % (f["name"], ", ".join(texts))
         if depth >= 2 or k < 0.3:
             if self.consts and self.p(0.25):
                 c = r.choice(sorted(self.consts))        # a named constant is its value
@@ -239,8 +249,9 @@ class Gen:
                     e, t = {"k": "var", "n": v}, v
                 else:
                     self.div_ok = getattr(self, "in_line", False)
+                    self.pcall_ok = getattr(self, "in_line", False)
                     e, t = self.expr()
-                    self.div_ok = False
+                    self.div_ok = self.pcall_ok = False
                 segs.append(("stmt", {"k": "p", "e": e}, "{%s}" % t))
             elif k < 0.8 and self.has("icond") and rich is True:
                 c, tc = self.expr(boolean=True)
@@ -335,9 +346,9 @@ class Gen:
             e, t = self.str_expr() if g["v"]["t"] == "str" else self.expr(boolean=True)
             return [{"k": "set", "x": g["n"], "e": e}] + [NL] * has_call(e), ["%s~ %s = %s" % (ind, g["n"], t)]
         if self.has("temp") and self.p(0.3):
-            self.div_ok = True
+            self.div_ok = self.pcall_ok = True
             e, t = self.expr()
-            self.div_ok = False
+            self.div_ok = self.pcall_ok = False
             name = self.fresh("t")
             st = {"k": "temp", "x": name, "e": e}
             self.temps.append(name)
@@ -354,9 +365,9 @@ class Gen:
             e, t = self.expr(1)
             return [{"k": "set", "x": x, "e": {"k": "b", "op": form[0], "a": var, "b": e}}] + [NL] * has_call(e), \
                    ["%s~ %s %s %s" % (ind, x, form, t)]
-        self.div_ok = True
+        self.div_ok = self.pcall_ok = True
         e, t = self.expr()
-        self.div_ok = False
+        self.div_ok = self.pcall_ok = False
         return [{"k": "set", "x": x, "e": e}] + [NL] * has_call(e), ["%s~ %s = %s" % (ind, x, t)]
 
     def block_if(self, ind):
@@ -385,7 +396,9 @@ class Gen:
                 br.append({"c": c, "b": self.body(stmts)})
                 lines.append("%s- %d:" % (ind, switch[2][i]))
             else:
+                self.pcall_ok = True
                 c, tc = self.expr(boolean=True)
+                self.pcall_ok = False
                 br.append({"c": c, "b": self.body(stmts)})
                 lines.append("%s- %s:" % (ind, tc))
             lines += ls
@@ -589,7 +602,9 @@ class Gen:
             conds = []
             if self.has("conds") and self.p(0.3):
                 for _ in range(r.randint(1, 2)):
+                    self.pcall_ok = True
                     c, tc = self.expr(boolean=True)
+                    self.pcall_ok = False
                     conds.append(c)
                     head += "{%s} " % tc
             cid = "%s.%s" % (self.cur, label) if label else self.fresh("#c")
@@ -890,6 +905,22 @@ class Gen:
                                      "coef": [r.randint(1, 3) for _ in range(n)], "add": r.randint(0, 2), "safe": self.p(0.5)})
             src += ["EXTERNAL %s(%s)" % (x["name"], ", ".join(x["params"])) for x in self.externs]
         fsrc = []
+        if self.has("pure_calls"):
+            # pure functions: the body is one `~ return expr` over the parameters, globals and read counts; a later one may
+            # call an earlier one
+            for i in range(r.randint(1, 2)):
+                name = "g%d" % i
+                params = ["x%d_%d" % (i, j) for j in range(r.randint(0, 2))]
+                self.cur = name
+                self.temps = list(params)
+                self.pcall_ok = True
+                e, t = self.expr()
+                self.pcall_ok = False
+                b = self.body([{"k": "ret", "e": e}])
+                self.knots[name] = {"body": b, "kind": "function", "params": params, "chain": [name], "auto": False}
+                fsrc.append("== function %s(%s) ==" % (name, ", ".join(params)))
+                fsrc.append("~ return %s" % t)
+                self.pures.append({"name": name, "params": params})
         if self.has("functions"):
             for i in range(r.randint(2, 3)):
                 name = "f%d" % i
